@@ -63,7 +63,9 @@ RULE = ("api cases: a generated ranked rule system (3-7 variables: int/float/boo
         "get_parameters_at_instant on every mentioned date, the day before and 40 days later); yaml cases: one system and a file of 10-14 "
         "tests, each 1-3 expectations in the by-variable / by-entity / by-instance layout, scalar / list / per-period "
         "forms, margins absent / absolute / relative / both / per-variable maps, expected values chosen equal, inside, "
-        "exactly at and beyond the margin from the real engine values; a float variable whose engine value is NaN, +inf or "
+        "exactly at and beyond the margin from the real engine values; 45% of the files are run with the option only_variables or "
+        "ignore_variables (a left-out variable must not decide the verdict, a selected one beyond its margin must fail the "
+        "test, in every layout; the model, which has no options, is given the output without the left-out variables); a float variable whose engine value is NaN, +inf or "
         "-inf (in YAML tests: must fail whatever is expected; in /calculate and /trace: oracle only); one population of "
         "66000-71000 one-person households per run whose group aggregate is expected by variable and by instance (oracle "
         "only, expected values in closed form).  A case is non-trivial when at least one slot "
@@ -900,7 +902,41 @@ def gen_yaml_case(rng):
             t = gen_yaml_test(rng, sysj, vt, tbs, len(tests))
             if t is not None:
                 tests.append(t)
-    return enc_case({"kind": "yaml", "sys": sysj, "tests": tests})
+    return enc_case({"kind": "yaml", "sys": sysj, "tests": tests, "options": gen_options(rng, tests, vt)})
+
+
+def gen_options(rng, tests, vt):
+    """options of the run (run_tests / openfisca test): none, only_variables or ignore_variables, chosen among the
+    variables the outputs mention, often one whose expectation is beyond its margin"""
+    r = rng.random()
+    if r < 0.55:
+        return {}
+    mentioned, beyond = [], []
+    for t in tests:
+        for name, _pk, _iid, _target in expectations(t, vt):
+            if name not in mentioned:
+                mentioned.append(name)
+        for name, tag in zip(t.get("cells", []), t.get("tags", [])):
+            if ("beyond" in tag or "nonfinite" in tag) and name not in beyond:
+                beyond.append(name)
+    if not mentioned:
+        return {}
+    k = rng.randint(1, min(3, len(mentioned)))
+    pool = [n for n in mentioned if n in beyond] * 2 + mentioned
+    chosen = []
+    while len(chosen) < k:
+        n = rng.choice(pool)
+        if n not in chosen:
+            chosen.append(n)
+    if rng.random() < 0.1:
+        chosen = []                   # only_variables: [] checks nothing, ignore_variables: [] ignores nothing
+    return {"only_variables": chosen} if r < 0.8 else {"ignore_variables": chosen}
+
+
+def ignored(options, name):
+    """YamlItem.should_ignore_variable"""
+    only, ign = options.get("only_variables"), options.get("ignore_variables")
+    return (ign is not None and name in ign) or (only is not None and name not in only)
 
 
 def gen_yaml_test(rng, sysj, vt, tbs, k):
@@ -977,6 +1013,7 @@ def gen_yaml_test(rng, sysj, vt, tbs, k):
                 key = "person" if x["ent"] == "person" else "household"
                 output.setdefault(key, {})[name] = tree(value)
     test["tags"] = tags
+    test["cells"] = [c[0] for c in cells]
     test["pids"] = pids
     test["hids"] = hids
     return test
@@ -1050,7 +1087,7 @@ def run_big(case):
         os.environ["PYTEST_ADDOPTS"] = "-q --tb=no -p no:cacheprovider --rootdir=" + str(d)
         try:
             with contextlib.redirect_stdout(io.StringIO()), contextlib.redirect_stderr(io.StringIO()):
-                run_tests(tbs, [str(d / "tests.yaml")], {})
+                run_tests(tbs, [str(d / "tests.yaml")], dict(case.get("options") or {}))
         finally:
             for k, v in old.items():
                 if v is None:
@@ -1256,7 +1293,7 @@ def write_yaml(case, path):
 
     tests = []
     for t in case["tests"]:
-        tests.append({k: conv(v) for k, v in t.items() if k not in ("tags", "pids", "hids")})
+        tests.append({k: conv(v) for k, v in t.items() if k not in ("tags", "pids", "hids", "cells")})
     path.write_text(yaml.safe_dump(tests, sort_keys=False, default_flow_style=False))
 
 
@@ -1310,7 +1347,7 @@ def run_yaml(case):
         os.environ["PYTEST_ADDOPTS"] = "-q --tb=no -p no:cacheprovider --rootdir=" + str(d)
         try:
             with contextlib.redirect_stdout(io.StringIO()), contextlib.redirect_stderr(io.StringIO()):
-                run_tests(tbs, [str(d / "tests.yaml")], {})
+                run_tests(tbs, [str(d / "tests.yaml")], dict(case.get("options") or {}))
         finally:
             for k, v in old.items():
                 if v is None:
@@ -1496,8 +1533,23 @@ def cast_targets(test, vt):
     return out
 
 
-def cytest(t, vt):
-    out = clist([f"({cstr(str(k))}, {cytree(v)})" for k, v in cast_targets(t, vt).items()])
+def prune(output, vt, options):
+    """the output section without the variables the options leave out (check_variable returns at once for them,
+    before anything is computed): what the model, which has no options, is given"""
+    out = {}
+    for key, value in output.items():
+        if key in vt:
+            if not ignored(options, key):
+                out[key] = value
+        elif key in ("person", "household"):
+            out[key] = {n: v for n, v in value.items() if not ignored(options, n)}
+        else:
+            out[key] = {iid: {n: v for n, v in inst.items() if not ignored(options, n)} for iid, inst in value.items()}
+    return out
+
+
+def cytest(t, vt, options=None):
+    out = clist([f"({cstr(str(k))}, {cytree(v)})" for k, v in prune(cast_targets(t, vt), vt, options or {}).items()])
     return (f"(mk_ytest (Some {cstr(str(t['period']))}) {out} {cmargin(t.get('absolute_error_margin'))} "
             f"{cmargin(t.get('relative_error_margin'))})")
 
@@ -1518,7 +1570,7 @@ def coq_case(case):
         if nomodel(t):
             continue
         ids = cids({"persons": t["pids"], "households": t["hids"]})
-        tests.append(f"({ids}, {ctable([(tuple(c), v) for c, v in vals])}, {cytest(t, vt)})")
+        tests.append(f"({ids}, {ctable([(tuple(c), v) for c, v in vals])}, {cytest(t, vt, case.get("options"))})")
     return f"(KYaml {cvtable(vt)} [\"person\"; \"household\"] {clist(tests)})"
 
 
@@ -1719,10 +1771,13 @@ def oracle_api(case, obs):
     return None
 
 
-def yaml_expected_pass(test, vals, vt):
-    """every expected output lies within its margin of the engine's value"""
+def yaml_expected_pass(test, vals, vt, options=None):
+    """every expected output (of a variable that the run's options do not leave out) lies within its margin of
+    the engine's value"""
     ids = {"person": test["pids"], "group": test["hids"]}
     for name, pk, iid, target in expectations(test, vt):
+        if ignored(options or {}, name):
+            continue
         if name not in vt:
             return False
         x = vt[name]
@@ -1767,12 +1822,13 @@ def oracle_yaml(case, obs):
     vt = var_table(case["sys"])
     for t, verdict, vals in zip(case["tests"], obs["verdicts"], obs["values"]):
         vals = {tuple(c): v for c, v in vals}
-        want = yaml_expected_pass(t, vals, vt)
+        want = yaml_expected_pass(t, vals, vt, case.get("options"))
         got = verdict is True
         if want != got:
             return (f"verdict: test {t['name']} {'passes' if got else 'fails (' + repr(verdict) + ')'} but its "
                     f"expectations are {'all' if want else 'not all'} within margin; output {json.dumps(t['output'])[:300]}, "
-                    f"engine values {vals}, margins {t.get('absolute_error_margin')}/{t.get('relative_error_margin')}")
+                    f"engine values {vals}, margins {t.get('absolute_error_margin')}/{t.get('relative_error_margin')}, "
+                    f"options {case.get('options')}")
     return None
 
 
